@@ -25,9 +25,33 @@ fn worker_bin() -> Option<PathBuf> {
 }
 
 fn scratch() -> PathBuf {
-    let p = PathBuf::from(format!("/dev/shm/bverif.{}/inproc", std::process::id()));
+    use std::os::unix::fs::PermissionsExt;
+    let base = PathBuf::from(format!("/dev/shm/bverif.{}", std::process::id()));
+    let p = base.join("inproc");
     let _ = std::fs::create_dir_all(&p);
+    // the C01 worker runs as an unprivileged user
+    let _ = std::fs::set_permissions(&base, std::fs::Permissions::from_mode(0o777));
+    let _ = std::fs::set_permissions(&p, std::fs::Permissions::from_mode(0o777));
     p
+}
+
+/// C01 feeds arbitrary text to the completion entry point, which may expand it: that worker runs as
+/// uid/gid 65534 so that nothing outside its scratch directory is writable for it
+fn drop_privileges_for(prop: &str, cmd: &mut Command) {
+    if prop == "C01" {
+        use std::os::unix::process::CommandExt;
+        cmd.current_dir(scratch());
+        cmd.env("HOME", scratch());
+        cmd.env("TMPDIR", scratch());
+        unsafe {
+            cmd.pre_exec(|| {
+                libc::setgroups(0, std::ptr::null());
+                libc::setgid(65534);
+                libc::setuid(65534);
+                Ok(())
+            });
+        }
+    }
 }
 
 struct Finished {
@@ -97,6 +121,7 @@ pub fn replay_inproc_deadline(prop: &str, layer: &str, case: &serde_json::Value,
     let mut cmd = Command::new(bin);
     cmd.arg(prop).arg("--replay").arg(layer).arg(&f);
     cmd.env_remove("BVERIF_ANNOUNCE");
+    drop_privileges_for(prop, &mut cmd);
     let fin = run_with_deadline(cmd, deadline);
     let _ = std::fs::remove_file(&f);
     let rendered_fallback = bvcommon::exec::trunc(&case.to_string(), 2000);
@@ -138,11 +163,16 @@ pub fn run_inproc(prop: &str, ctx: &Ctx, run: &mut PropRun) {
     for _attempt in 0..4 {
         let _ = std::fs::remove_dir_all(&announce);
         let _ = std::fs::create_dir_all(&announce);
+        {
+            use std::os::unix::fs::PermissionsExt;
+            let _ = std::fs::set_permissions(&announce, std::fs::Permissions::from_mode(0o777));
+        }
         let mut cmd = Command::new(&bin);
         cmd.arg(prop).arg(ctx.tier.name()).arg(ctx.seed.to_string());
         cmd.env("BVERIF_ANNOUNCE", &announce);
         cmd.env("BVERIF_ACTIVE_CLASSES", ctx.active_classes.iter().cloned().collect::<Vec<_>>().join(","));
         cmd.env("BVERIF_SKIP_HASHES", skip.iter().map(|h| h.to_string()).collect::<Vec<_>>().join(","));
+        drop_privileges_for(prop, &mut cmd);
         let fin = run_with_deadline(cmd, budget);
         if fin.ok {
             match serde_json::from_slice::<Vec<LayerReport>>(&fin.stdout) {
